@@ -37,6 +37,8 @@ fn behaviour(stage: &str, b: &str) -> Stage {
         "normal" => Stage::Normal,
         "secure" => Stage::Frames(vec![secure_frame()], false),
         "close" => Stage::Frames(vec![conn_close_frame(530, "NOT_ALLOWED - vhost")], false),
+        // ... and hangs up without waiting for the CloseOk
+        "close-eof" => Stage::Frames(vec![conn_close_frame(530, "NOT_ALLOWED - vhost")], true),
         "start" => Stage::Frames(vec![start_frame("PLAIN", "en_US")], false),
         "tune" => Stage::Frames(vec![tune_frame(0, 0, 0)], false),
         "openok" => Stage::Frames(vec![open_ok_frame()], false),
@@ -89,7 +91,7 @@ fn expected(stage: &str, b: &str, timeout: bool, external: bool) -> Vec<&'static
                 vec!["Err(FrameUnexpected)"]
             }
         }
-        "close" => {
+        "close" | "close-eof" => {
             if stage == "open" {
                 vec!["Err(ServerClosedConnection(530,NOT_ALLOWED - vhost))"]
             } else {
@@ -155,6 +157,7 @@ impl Scenario for Hs {
         v.push(json!({"stage": "startok", "b": "tune-small-frame-max", "timeout": true, "auth": "plain", "info": false}));
         v.push(json!({"stage": "open", "b": "normal-then-heartbeat", "timeout": true, "auth": "plain", "info": false}));
         v.push(json!({"stage": "open", "b": "normal-then-blocked", "timeout": true, "auth": "plain", "info": false}));
+        v.push(json!({"stage": "open", "b": "close-eof", "timeout": true, "auth": "plain", "info": false}));
         // option variations on the good path and on the credential-rejection path
         for auth in ["plain", "external", "custom"] {
             for info in [false, true] {
@@ -363,6 +366,10 @@ impl Scenario for Hs {
                 allowed.push((10, 31));
                 allowed.push((10, 40));
                 if stage == "open" && b == "close" {
+                    allowed.push((10, 51));
+                }
+                // (close-eof: the CloseOk has nobody to go to; written or not)
+                if stage == "open" && b == "close-eof" && ids.last() == Some(&(10, 51)) {
                     allowed.push((10, 51));
                 }
                 if ok {
